@@ -946,7 +946,10 @@ class ShortIntegrationFrameComputer(LinearFilterBankFrameComputer):
             buffered_frame[1] = 0
             fourier_frame = buffered_frame.view(np.complex128)
         elif self._real:
-            fourier_frame = np.fft.rfft(buff, n=self._dft_size)
+            # numpy >= 2 transforms float32 input in single precision
+            fourier_frame = np.fft.rfft(
+                buff.astype(np.float64, copy=False), n=self._dft_size
+            )
         elif config.USE_FFTPACK:
             from scipy import fftpack
 
@@ -954,7 +957,9 @@ class ShortIntegrationFrameComputer(LinearFilterBankFrameComputer):
             complex_frame[: len(buff)] = buff  # implicit upcast if f32
             fourier_frame = fftpack.fft(complex_frame, overwrite_x=True)
         else:
-            fourier_frame = np.fft.fft(buff, n=self._dft_size)
+            fourier_frame = np.fft.fft(
+                buff.astype(np.complex128, copy=False), n=self._dft_size
+            )
         assert fourier_frame.dtype == np.complex128
         return fourier_frame
 
